@@ -624,6 +624,7 @@ def run_check(spec, tier, seed):
         results = schedule(runnable, lambda h: run_harness(crate_of(h), cwds[crate_of(h)], h, tier, outdir))
 
     violations = []
+    unreplayed = []
     known_seen = []
     inconclusive = []
     holds = 0
@@ -637,7 +638,12 @@ def run_check(spec, tier, seed):
         if r["status"] == "inconclusive":
             inconclusive.append((h, r))
             continue
-        # failed: replay first
+        # failed: replay first. Once one violation of this property has been reproduced natively the verdict of the
+        # check is settled (exit 1); further counterexamples are listed but not replayed (each replay costs a Kani run).
+        if violations and h.expect != "known_finding":
+            r["replay"] = {"skipped": "another counterexample of this check was already reproduced natively"}
+            unreplayed.append((h, r))
+            continue
         log("[%s] counterexample in %s: %s -- replaying natively" % (pid, h.short, r["reason"]))
         hook = spec.get("nonterm_replay")
         if h.unwind_failure_is_violation and hook and "does not terminate" in r["reason"]:
@@ -649,6 +655,13 @@ def run_check(spec, tier, seed):
         else:
             rec, rpath = replay_counterexample(pid, crate_of(h), h, outdir)
             r["replay"] = {"path": rpath, "reproduced": rec.get("reproduced"), "values": rec.get("concrete_values")}
+            fallback = (spec.get("native_replay") or {}).get(h.short)
+            if rec.get("reproduced") is None and fallback:
+                # Kani could not produce a playback test (typically: out of memory while building the trace).
+                # The spec names a native test of the harness crate that exercises this harness' input class.
+                ok, rpath = fallback(pid, h, r)
+                rec = {"reproduced": ok}
+                r["replay"] = {"path": rpath, "reproduced": ok, "via": "native demonstration test of the harness crate"}
         if rec.get("reproduced"):
             if h.expect == "known_finding" and h.finding in known_for:
                 known_seen.append((h, known_for[h.finding], rpath))
@@ -718,6 +731,7 @@ def run_check(spec, tier, seed):
             "repo": REPO,
             "known_findings_seen": [k["id"] for _, k, _ in known_seen],
             "inconclusive": [{"harness": h.name, "reason": r["reason"]} for h, r in inconclusive],
+            "further_counterexamples_not_replayed": [{"harness": h.name, "reason": r["reason"]} for h, r in unreplayed],
             "problems": problems,
             "oracle_validation": _oracle_validation(),
         },
@@ -730,6 +744,8 @@ def run_check(spec, tier, seed):
 
     for h, k, rpath in known_seen:
         print("KNOWN-FINDING: property=%s %s (harness %s, replay %s)" % (pid, k["what"], h.short, rpath))
+    for h, r in unreplayed:
+        print("  also failed (not replayed): %s: %s" % (h.name, r["reason"]))
     for h, r, rpath in violations:
         print("VIOLATION property=%s replay=%s" % (pid, rpath))
         print("  harness=%s: %s" % (h.name, r["reason"]))
